@@ -2,7 +2,7 @@
 # tools/seed_try.sh <worktree> : run every check against a scratch worktree holding a seeded change (evidence redirected)
 wt=$1
 tmp=$(mktemp -d /tmp/seedev_XXXX)
-for p in C01 C02 C03 C04 C05 C06 C07 C08 C09 C10 C12 C13 C14 C15 C16 C17 C18 C19 C20; do
+for p in C01 C02 C03 C04 C05 C06 C07 C08 C09 C10 C11 C12 C13 C14 C15 C16 C17 C18 C19 C20; do
   out=$(SA_EVIDENCE_DIR=$tmp /verif/check $p quick --repo $wt 2>&1)
   rc=$?
   n=$(echo "$out" | grep -c '^FINDING')
